@@ -26,6 +26,18 @@ impl Hist {
         let c = self.p.parse(&line, decode);
         self.log.push((line, decode));
         rep.class(format!("{}:{}:decode={}", gen, call_kind(&c), decode as u8));
+        if rep.samples.len() < 6 && self.log.len() % 7 == 3 {
+            let (l, d) = self.log.last().unwrap().clone();
+            let k = call_kind(&c);
+            rep.sample(6, || {
+                let mut o = J::obj();
+                o.set("generator", J::s(gen));
+                o.set("line", J::bytes(&l[..l.len().min(120)]));
+                o.set("decode", J::Bool(d));
+                o.set("returned", J::s(k));
+                o
+            });
+        }
         if let Call::Panic(pi) = c {
             // keep the tail of the history: it is the witness
             let tail: Vec<(Vec<u8>, bool)> = self.log[self.log.len().saturating_sub(12)..].to_vec();
